@@ -206,6 +206,47 @@ fn main() {
                 cx.out.case("sig", &[kv.to_string(), sv.to_string(), "2:0:-".into()], &["sign-version".into(), kv.to_string(), sv.to_string()], &(signed as u8).to_string(), None, "sig-key-version-sign");
             }
         }
+        // certificate-forming signatures where signer and signee are different keys of every version pair: the version rule
+        // is about the key that ISSUED the signature (the model's sig_admissible gets the signer's version), whatever is certified
+        {
+            use pgp::types::Tag;
+            let b4 = gen_key_with_subkey(KeyVersion::V4, 163);
+            let b6 = gen_key_with_subkey(KeyVersion::V6, 164);
+            let frame = |k: &pgp::packet::PublicKey| -> Vec<u8> { let b = k.to_bytes().unwrap_or_default(); let mut o = Vec::new(); if k.version() == KeyVersion::V6 { o.push(0x9b); o.extend((b.len() as u32).to_be_bytes()); } else { o.push(0x99); o.extend((b.len() as u16).to_be_bytes()); } o.extend(b); o };
+            let frame_sub = |k: &pgp::packet::PublicSubkey| -> Vec<u8> { let b = k.to_bytes().unwrap_or_default(); let mut o = Vec::new(); if k.version() == KeyVersion::V6 { o.push(0x9b); o.extend((b.len() as u32).to_be_bytes()); } else { o.push(0x99); o.extend((b.len() as u16).to_be_bytes()); } o.extend(b); o };
+            let uid = pgp::packet::UserId::from_str(Default::default(), "third <party@example.org>").unwrap();
+            let uidb = b"third <party@example.org>".to_vec();
+            for (ks, signer, signer_pub) in [(4u8, &r4, a4.primary_key.public_key().clone()), (6u8, &r6, a6.primary_key.public_key().clone())] {
+                for (ke, signee) in [(4u8, &b4), (6u8, &b6)] {
+                    let signee_pub = signee.primary_key.public_key().clone();
+                    let signee_sub = signee.secret_subkeys[0].key.public_key().clone();
+                    for sv in [4u8, 6] {
+                        let mk = |typ: SignatureType| -> Option<SignatureConfig> { let mut c = base(sv, vec![])?; c.typ = typ; Some(c) };
+                        // third-party certification and its revocation
+                        for typ in [SignatureType::CertGeneric, SignatureType::CertPositive, SignatureType::CertRevocation] {
+                            let Some(cfg) = mk(typ) else { continue; };
+                            let mut subj = frame(&signee_pub); subj.push(0xb4); subj.extend((uidb.len() as u32).to_be_bytes()); subj.extend_from_slice(&uidb);
+                            let acc = forge(&cfg, signer, &subj).map(|s| guarded(|| s.verify_third_party_certification(&signee_pub, signer, Tag::UserId, &uid).is_ok()).unwrap_or(false)).unwrap_or(false);
+                            cx.out.case("sig", &[ks.to_string(), sv.to_string(), "2:0:-".into()], &["third-party-cert".into(), ks.to_string(), ke.to_string(), sv.to_string(), u8::from(typ).to_string()], &(acc as u8).to_string(), None, "sig-key-version-third-party-certification");
+                        }
+                        // third-party direct-key signature and key revocation
+                        for typ in [SignatureType::Key, SignatureType::KeyRevocation] {
+                            let Some(cfg) = mk(typ) else { continue; };
+                            let acc = forge(&cfg, signer, &frame(&signee_pub)).map(|s| guarded(|| s.verify_key_third_party(&signee_pub, signer).is_ok()).unwrap_or(false)).unwrap_or(false);
+                            cx.out.case("sig", &[ks.to_string(), sv.to_string(), "2:0:-".into()], &["third-party-key".into(), ks.to_string(), ke.to_string(), sv.to_string(), u8::from(typ).to_string()], &(acc as u8).to_string(), None, "sig-key-version-third-party-key");
+                        }
+                        // a binding of the signee's subkey issued by the signer key (signature level only: which subkeys a
+                        // certificate may carry is judged under "subkey" below)
+                        for typ in [SignatureType::SubkeyBinding, SignatureType::SubkeyRevocation] {
+                            let Some(cfg) = mk(typ) else { continue; };
+                            let mut subj = frame(&signer_pub); subj.extend(frame_sub(&signee_sub));
+                            let acc = forge(&cfg, signer, &subj).map(|s| guarded(|| s.verify_subkey_binding(signer, &signee_sub).is_ok()).unwrap_or(false)).unwrap_or(false);
+                            cx.out.case("sig", &[ks.to_string(), sv.to_string(), "2:0:-".into()], &["subkey-binding-sig".into(), ks.to_string(), ke.to_string(), sv.to_string(), u8::from(typ).to_string()], &(acc as u8).to_string(), None, "sig-key-version-subkey-binding");
+                        }
+                    }
+                }
+            }
+        }
         // every subpacket id x critical bit in the hashed area of a v4 and a v6 signature
         for (sv, key) in [(4u8, &r4), (6u8, &r6)] {
             for id in 0u8..128 {
